@@ -122,6 +122,7 @@ class Ctx:
         self.user_prelude = prelude_text
         self.axioms = list(axioms)
         self.const_sort = {}
+        self.predefined = set()
 
     def fresh(self, sort, hint="v", cls=None):
         self.n += 1
@@ -192,7 +193,11 @@ class Ctx:
                     done.append(s)
                     pending.remove((k, s))
         for name, (a, r) in self.funs.items():
+            if name in self.predefined:
+                continue  # defined by (define-fun ...) in the module prelude
             out.append(f"(declare-fun |{name}| ({' '.join(sort_smt(x) for x in a)}) {sort_smt(r)})")
+        if getattr(self, "user_defs", ""):
+            out.append(self.user_defs)
         for name, sort in self.decls:
             out.append(f"(declare-const {name} {sort_smt(sort)})")
         for a in self.axioms:
